@@ -53,7 +53,7 @@ func (e *pExpr) SQL() string {
 }
 
 type pStmt struct {
-	k      string // var assign print if while break continue exit func return dispose cursor probe_cursor view probe_view
+	k      string // var assign print if while curloop break continue exit func return dispose cursor probe_cursor view probe_view
 	name   string
 	e      *pExpr
 	cond   *pExpr
@@ -96,6 +96,11 @@ func (s *pStmt) SQL(ind string) string {
 		return r + ind + "END IF;\n"
 	case "while":
 		return ind + "WHILE " + s.name + " < " + strconv.Itoa(s.limit) + " DO\n" + ind + "  " + s.name + " := " + s.name + " + 1;\n" + renderStmts(s.body, ind+"  ") + ind + "END WHILE;\n"
+	case "curloop":
+		cn := fmt.Sprintf("cl%d", s.limit)
+		return ind + "DECLARE " + cn + " CURSOR FOR SELECT 1 UNION ALL SELECT 2 UNION ALL SELECT 3;\n" + ind + "OPEN " + cn + ";\n" +
+			ind + "WHILE " + s.name + " IN " + cn + " DO\n" + renderStmts(s.body, ind+"  ") + ind + "END WHILE;\n" +
+			ind + "CLOSE " + cn + ";\n" + ind + "DISPOSE CURSOR " + cn + ";\n" + ind + s.name + " := 0;\n"
 	case "break":
 		return ind + "BREAK;\n"
 	case "continue":
@@ -358,6 +363,34 @@ func (in *pInterp) exec(env []*pBlock, ss []*pStmt, inLoop bool) (int, int, *pEr
 					return fl, rv, nil
 				}
 			}
+		case "curloop":
+			for val := 1; val <= 3; val++ {
+				in.steps++
+				if in.steps > 20000 {
+					return flNone, 0, &pErr{"step budget"}
+				}
+				benv := append(append([]*pBlock{}, env...), newPBlock())
+				lv := in.lookupVar(benv, s.name)
+				if lv == nil {
+					return flNone, 0, &pErr{"undeclared variable " + s.name}
+				}
+				*lv = val
+				fl, rv, err := in.exec(benv, s.body, true)
+				if err != nil {
+					return flNone, 0, err
+				}
+				if fl == flBreak {
+					break
+				}
+				if fl == flReturn || fl == flExit {
+					return fl, rv, nil
+				}
+			}
+			lv := in.lookupVar(env, s.name)
+			if lv == nil {
+				return flNone, 0, &pErr{"undeclared variable " + s.name}
+			}
+			*lv = 0
 		case "break":
 			return flBreak, 0, nil
 		case "continue":
@@ -505,6 +538,29 @@ func (g *pGen) block(vis []string, declaredHere map[string]bool, depth int, inLo
 				s.els = g.block(append([]string{}, vis...), map[string]bool{}, depth+1, inLoop, inFunc, g.r.Range(1, 3))
 			}
 			out = append(out, s)
+		case c == 13 && depth < 4 && g.r.P(40):
+			// a loop over a block-local cursor; inside a function the body may RETURN from the middle of it
+			g.loopN++
+			lv := fmt.Sprintf("@i%d", g.loopN)
+			var cand []string
+			for _, v := range vis {
+				if strings.HasPrefix(v, "@") && !strings.HasPrefix(v, "@g") && !strings.HasPrefix(v, "@i") {
+					cand = append(cand, v)
+				}
+			}
+			if len(cand) > 0 && g.r.P(50) {
+				lv = cand[g.r.Intn(len(cand))]
+			} else {
+				out = append(out, &pStmt{k: "var", name: lv, e: &pExpr{k: "lit", n: 0}})
+				vis = append(vis, lv)
+			}
+			cl := &pStmt{k: "curloop", name: lv, limit: g.loopN}
+			cl.body = g.block(append([]string{}, vis...), map[string]bool{}, depth+1, true, inFunc, g.r.Range(1, 3))
+			if inFunc && g.r.P(60) {
+				cl.body = append(cl.body, &pStmt{k: "if", cond: g.cond(vis), body: []*pStmt{{k: "return", e: g.expr(vis, 1, false)}}})
+			}
+			out = append(out, cl)
+			g.features["curloop"] = true
 		case c == 13 && depth < 4:
 			g.loopN++
 			lv := fmt.Sprintf("@i%d", g.loopN)
@@ -710,6 +766,9 @@ func c15Case(w *core.Worker, i int) {
 	}
 	if perr != nil {
 		w.Count("programs_ending_in_error", 1)
+	}
+	if g.features["curloop"] {
+		w.Count("programs_with_a_cursor_loop", 1)
 	}
 	w.Case(core.Digest(text), len(want) >= 4 && (g.features["shadow"] || g.features["call"]))
 }
